@@ -230,6 +230,14 @@ func runC15(c *core.Ctx) {
 			cases = append(cases, cs{[]string{hs}, q, v})
 		}
 	}
+	// the small-scope family with several variable maps: whatever validates is resolved
+	for i, k := range SmallScopeLight() {
+		if !c.Quick || i%2 == 0 {
+			for _, v := range []string{"{}", "{76=i01,62=t}", "{76=n}", "{76=i07,62=f,66={6e616d65=s61}}"} {
+				cases = append(cases, cs{k.Srcs, k.Query, v})
+			}
+		}
+	}
 	for k, v := range feats {
 		c.Count("feature_"+k, int64(v))
 	}
